@@ -28,12 +28,12 @@ GLOBS = ["x", "*", "[", "a\\", "", "é", "[[:alpha:]", "[[:a]"]
 POOLS = {
     "glob": (GLOBS, []),
     "regex": (["a", ".*", "a*b"], ["["]),
-    "perm": (["644", "-644", "/222", "u=rwx", "-u+w,g-x", "0", "7777", "+x"], ["999", "u=z", "8", "rwx", "77777"]),
+    "perm": (["644", "-644", "/222", "u=rwx", "-u+w,g-x", "0", "7777", "+x", "=7", "--7"], ["999", "u=z", "8", "rwx", "77777", " 644", "644 ", "- 644", "+644", "+07", "\t644"]),
     "file": (["ref", "."], ["missing", "ref/none"]),
-    "user": (["root", "0", "12345"], ["nosuchuser_x"]),
+    "user": (["root", "0", "12345"], ["nosuchuser_x", "+0", "+00000", " 0"]),
     "any": (["ext4", "x"], []),
     "outfile": (["/dev/null"], ["/nonexistent_dir_x/out"]),
-    "date": (["jan 01, 2025", "jan 01, 2025 10:00:00"], ["notadate", "٢٠٢٥", "jan 01, ٢٠٢٥"]),
+    "date": (["jan 01, 2025", "jan 01, 2025 10:00:00", "jan 01", ""], ["notadate", "٢٠٢٥", "jan 01, ٢٠٢٥", ", 2025", ", 2025 10:00:00", "jan 01, 2025 23:59:60"]),
 }
 KIND_OF = {}
 for n in ("-name", "-iname", "-path", "-ipath", "-wholename", "-iwholename", "-lname", "-ilname"):
@@ -47,8 +47,8 @@ MODELLED = {
     "-size": (["1k", "+2M", "-3", "0c", "5w", "1G", "7b"], ["10x", "k", "", "1kk", "abc10k", "1K"]),
     "-type": (["f", "d", "l", "p", "s", "b", "c"], ["x", "fd", "", "D", "F"]),
     "-printf": (["%p\\n", "%5d|%-3f", "abc", "%%", "\\101", "é%p", "%H/%P", "\\c", "%AH", "%T@", "\\101é", "\\1é"],
-                ["\\q", "%", "abc\\", "\\é", "%é", "%99999999999999999999p", "%A", "%5", "\\12é", "\\1€", "%Aé", "\\0😀"]),
-    "depth": (["0", "3", "+2", "10"], ["-1", "x", "", "1.5"]),
+                ["\\q", "%", "abc\\", "\\é", "%é", "%99999999999999999999p", "%A", "%5", "\\12é", "\\1€", "%Aé", "\\0😀", "%{", "a%[b", "%5(x)"]),
+    "depth": (["0", "3", "2", "10"], ["-1", "x", "", "1.5", "+2", "+0"]),
     "-regextype": (["emacs", "posix-extended", "grep", "sed", "ed", "posix-basic"], ["bogus", "", "EMACS"]),
 }
 NUMERIC = ["-links", "-inum", "-uid", "-gid", "-mtime", "-atime", "-ctime", "-mmin", "-amin", "-cmin"]
@@ -140,7 +140,7 @@ class G:
         """an arbitrary string for a primary whose operand the extracted validators decide (-printf, numeric tests, -size, -type, depth, -regextype)"""
         rng = self.rng
         if name in ("-printf", "-fprintf"):
-            alpha = ["%", "%", "\\", "\\", "0", "1", "2", "7", "8", "a", "p", "d", "-", " ", "5", "é", "€", "😀", "A", "T", "@", "c", "n", "H", "q", "9"]
+            alpha = ["%", "%", "\\", "\\", "0", "1", "2", "7", "8", "a", "p", "d", "-", " ", "5", "é", "€", "😀", "A", "T", "@", "c", "n", "H", "q", "9", "{", "[", "("]
             return "".join(rng.choice(alpha) for _ in range(rng.randint(1, 7)))
         if name in NUMERIC or name in ("-mindepth", "-maxdepth"):
             return "".join(rng.choice(["+", "-", "0", "1", "9", "k", " ", "٣", "x", ""]) for _ in range(rng.randint(0, 4)))
@@ -209,7 +209,11 @@ class Oracle:
         import pwd
         import grp
         for kind, prim, op in need:
-            if kind in ("glob", "any"):
+            # the listed operands are the specification (each confirmed against the documentation and GNU find): they are not put to the
+            # oracles below, which for -perm and regular expressions ask the same libraries the implementation uses
+            if kind in POOLS and kind not in ("file", "outfile", "user") and (op in POOLS[kind][0] or op in POOLS[kind][1]):
+                self.cache[(kind, prim, op)] = op in POOLS[kind][0]
+            elif kind in ("glob", "any"):
                 self.cache[(kind, prim, op)] = True
             elif kind == "regex":
                 for ty in ("emacs", "grep", "posix-basic", "posix-extended"):
@@ -228,7 +232,7 @@ class Oracle:
                         (pwd.getpwnam if prim == "-user" else grp.getgrnam)(op)
                         ok = True
                     except KeyError:
-                        ok = op.isascii() and op.isdigit() and int(op) < 2 ** 32 or (op[:1] == "+" and op[1:].isascii() and op[1:].isdigit() and int(op[1:]) < 2 ** 32)
+                        ok = op.isascii() and op.isdigit() and int(op) < 2 ** 32          # decimal digits only
                 self.cache[(kind, prim, op)] = ok
             elif kind == "outfile":
                 d = os.path.dirname(os.path.join(self.cwd, op))
@@ -350,6 +354,7 @@ def run(ctx):
         action_totality(ctx, forest)
         known(ctx, forest)
         printf_widths(ctx, forest)
+        ordinary_status(ctx, forest)
     finally:
         forest.close()
 
@@ -397,6 +402,26 @@ def action_totality(ctx, forest):
         if code not in (0, 1):
             ctx.violation("find %s: %s" % (" ".join(args), code), {"property": "C11", "kind": "action-totality", "find_args": args, "outcome": str(code),
                                                                    "stderr": err.decode("utf-8", "replace")[:300]})
+
+
+def ordinary_status(ctx, forest):
+    """ "never by a panic": the output file of -fprintf cannot be written; the fixed arguments of -exec ... {} + leave no room on a command
+    line (with an empty environment, so that only the argument vector decides)"""
+    import resource
+    import subprocess
+    cases = [(["sb", "-fprintf", "/dev/full", "%p\n"], 1, None),
+             (["sb", "-fprintf", "/dev/full", "%p\n", "-o", "-print"], 1, None),
+             (["sb/a", "-exec", "true"] + ["a" * 131000] * 15 + ["b" * 126000, "{}", "+"], 1, {}),
+             (["sb/a", "-exec", "true"] + ["a" * 131000] * 15 + ["b" * 100000, "{}", "+"], 0, {})]
+    for args, want_rc, env in cases:
+        p = subprocess.run([fw.FIND] + args, stdout=subprocess.PIPE, stderr=subprocess.PIPE, cwd=forest.dir, env=xc.ENV if env is None else env, timeout=120,
+                           preexec_fn=lambda: resource.setrlimit(resource.RLIMIT_STACK, (8 << 20, 8 << 20)))
+        short = [a if len(a) < 40 else "%s*%d" % (a[0], len(a)) for a in args]
+        ctx.count(("ordinary-status", tuple(short)), True, "ordinary-status")
+        if p.returncode != want_rc or b"panicked" in p.stderr:
+            ctx.violation("find %s: exit %d (%s); expected an ordinary exit status %d" % (" ".join(short), p.returncode, p.stderr.decode("utf-8", "replace")[:120], want_rc),
+                          {"property": "C11", "kind": "ordinary-status", "find_args": short, "exit": p.returncode, "stderr": p.stderr.decode("utf-8", "replace")[:300],
+                           "expected_exit": want_rc})
 
 
 def printf_widths(ctx, forest):
